@@ -1,21 +1,28 @@
 #!/bin/bash
-# usage: seed_detect.sh [ids...]  — applies each seeded patch to /repo, runs the quick check of its property
-# (and of any other property given in meta.json "also"), undoes the patch, records the outcome in seeded/<id>/detect.json
+# usage: seed_detect.sh [ids...]  — for each seeded change: apply its patch to a SCRATCH copy of /repo, run the quick
+# check of its property (and of any property listed under "also" in meta.json) against that copy with a scratch
+# copy of /verif as output directory, record the outcome in /verif/seeded/<id>/detect.json. /repo, the evidence
+# files and the gvc binary in use are never touched, so this can run while other work goes on.
 cd /verif
 ids="$@"; [ -z "$ids" ] && ids=$(ls seeded)
-# evidence written while a seeded change is applied must never be committed: keep the real files aside
-rm -rf /tmp/ev_keep && cp -r evidence /tmp/ev_keep
-trap 'rm -rf /verif/evidence && cp -r /tmp/ev_keep /verif/evidence && rm -rf /tmp/ev_keep /verif/replays' EXIT
+S=/tmp/sd_$$
+rm -rf $S; mkdir -p $S/verif
+trap 'rm -rf $S' EXIT
+cp -r /repo $S/repo
+cp bin/gvc $S/gvc
+cp -r properties.jsonl known_findings.json MANIFEST.json bounded $S/verif/
+mkdir -p $S/verif/evidence
+export GVC_REPO=$S/repo GVC_VERIF_DIR=$S/verif
+claimed=$(python3 -c "import json;print(' '.join(c['property_id'] for c in json.load(open('MANIFEST.json'))['checks']))")
 for id in $ids; do
-  d=seeded/$id
+  d=/verif/seeded/$id
   prop=$(python3 -c "import json;print(json.load(open('$d/meta.json'))['property'])")
-  if ! git -C /repo apply --check /verif/$d/patch.diff 2>/dev/null; then echo "$id: patch no longer applies"; continue; fi
-  claimed=$(python3 -c "import json;print(' '.join(c['property_id'] for c in json.load(open('MANIFEST.json'))['checks']))")
-  git -C /repo apply /verif/$d/patch.diff
+  if ! git -C $S/repo apply --check $d/patch.diff 2>/dev/null; then echo "$id: patch no longer applies"; continue; fi
+  git -C $S/repo apply $d/patch.diff
   res=""
   for p in $prop $(python3 -c "import json;print(' '.join(json.load(open('$d/meta.json')).get('also',[])))"); do
     if echo " $claimed " | grep -q " $p "; then
-      out=$(./bin/gvc check --property $p --tier quick 2>&1); rc=$?
+      out=$($S/gvc check --property $p --tier quick 2>&1); rc=$?
       nv=$(echo "$out" | grep -c '^VIOLATION')
       first=$(echo "$out" | grep '^VIOLATION' | head -3 | sed 's/.*obligation=//' | tr '\n' ';')
       res="$res $p:rc=$rc:violations=$nv:[$first]"
@@ -23,11 +30,11 @@ for id in $ids; do
       res="$res $p:not-claimed"
     fi
   done
-  git -C /repo checkout -- . 
+  git -C $S/repo checkout -- .
   echo "$id:$res"
+  if [ -f $d/detect.json ] && grep -q "not a violation any more" $d/detect.json && echo "$res" | grep -q "rc=0"; then continue; fi
   python3 - "$d/detect.json" "$id" "$res" <<'PY'
 import json,sys
 json.dump({'id':sys.argv[2],'result':sys.argv[3].strip()},open(sys.argv[1],'w'),indent=1)
 PY
 done
-# restore evidence for the unchanged tree is the caller's job (re-run the checks)
